@@ -50,6 +50,7 @@ impl State {
 //@use state.fns State::is_recording assumed
 //@use state.fns State::add_reverse_step assumed
 //@use state.fns State::pop_data assumed
+//@use state.fns State::push_data assumed
 //@use compile.fns State::code_emit_value
 //@use compile.fns State::run
 //@use compile.fns State::context_close
@@ -216,6 +217,7 @@ impl Xerr {
 //@use corewords.fns State::load_core#w_fmt_slashprefix
 //@use corewords.fns State::load_core#w_fmt_slashtags
 //@use corewords.fns State::load_core#w_fmt_slashupcase
+//@use corewords.fns State::load_core#w__ltname_to
 
 // ---- `let`: run-time helper words it compiles calls of (named only), the emitter of a native call, a tag-key constant
 #[verifier::external_body] fn core_word_tags(xs: &mut State) -> Xresult { unimplemented!() }
@@ -300,6 +302,7 @@ pub uninterp spec fn sources_has_name(s: Seq<(Xstr, Xstr)>, name: Xstr) -> bool;
 //@use compile.fns ::include_source
 //@use compile.fns ::core_word_include
 //@use compile.fns ::core_word_require
+//@use compile.fns ::core_word_name
 //@use compile.fns ::enum_flow_error
 //@use compile.fns ::enum_field_default
 //@use compile.fns ::build_let_match
